@@ -93,6 +93,7 @@ type rcAttempt struct {
 }
 
 type rcInj struct {
+	failClose bool // f prefix: the transport's Impl.Close returns an error (it still closes the stream)
 	double bool   // 2 prefix: once the injected Close is inside the wrapped client's Close, Close is called again
 	cancel bool   // x prefix
 	kind   string // pre conn msg disc rst bo end
@@ -177,6 +178,10 @@ func rcParse(args []string) (*rcScenario, bool) {
 		}
 	}
 	in := args[4]
+	if strings.HasPrefix(in, "f") {
+		s.inj.failClose = true
+		in = in[1:]
+	}
 	if strings.HasPrefix(in, "2") {
 		s.inj.double = true
 		in = in[1:]
@@ -355,8 +360,13 @@ type rcImpl struct {
 	st *rcStream
 }
 
+var errRcImplClose = errors.New("scripted: transport close failed")
+
 func (i *rcImpl) Close() error {
 	i.st.closeOnce.Do(func() { close(i.st.closed) })
+	if i.st.w.sc.inj.failClose {
+		return errRcImplClose
+	}
 	return nil
 }
 
@@ -1149,6 +1159,9 @@ func (c *rcComp) Gen(r *rand.Rand, tier string) []string {
 				inj = fmt.Sprintf("%sconn:%d", x, a)
 			case k < 12:
 				inj = fmt.Sprintf("%smsg:%d:%d:%s", x, a, r.Intn(4), beh)
+				if x == "" && r.Intn(4) == 0 {
+					inj = "f" + inj // the transport's Close reports an error
+				}
 			case k < 15:
 				inj = fmt.Sprintf("%sdisc:%d", x, a)
 				if x == "" && r.Intn(3) == 0 {
